@@ -156,8 +156,10 @@ func TestC07(t *testing.T) {
 			}
 		}
 		eval(t, graphCase{G: g, Tag: "exh:3-params"})
+		g.Names = 1
+		eval(t, graphCase{G: g, Tag: "exh:3-params:dotted-names"})
 	}
-	col.Exhaustive("all 512 reference structures on 3 parameters")
+	col.Exhaustive("all 512 reference structures on 3 parameters, with plain names and with dotted names n, n.n, n.n.n (concatenations of two names coincide for different pairs)")
 	q.flush(t, 1)
 
 	// (a2) 3 services with up to 4 @-edges (all 256 subsets), edge kinds rotating
@@ -175,8 +177,11 @@ func TestC07(t *testing.T) {
 		if !ev.Mine(idx) {
 			continue
 		}
-		for place := 0; place < 3; place++ {
-			g := gen.GraphSpec{NSvc: 3, Place: place, Decoys: place == 2}
+		for place := 0; place < 4; place++ {
+			g := gen.GraphSpec{NSvc: 3, Place: place % 3, Decoys: place == 2}
+			if place == 3 {
+				g.Names = 1 // dotted names, one reference per argument list
+			}
 			for b := 0; b < 9; b++ {
 				if m&(1<<b) != 0 {
 					kind := (b + m) % 3
@@ -189,7 +194,7 @@ func TestC07(t *testing.T) {
 			eval(t, graphCase{G: g, Tag: fmt.Sprintf("exh:3-services:place=%d", place)})
 		}
 	}
-	col.Exhaustive("all 256 structures of at most 4 @service edges on 3 services x 3 argument layouts (one reference per argument list / packed into one list with a trailing literal / with a leading literal and look-alike parameter and tag names)")
+	col.Exhaustive("all 256 structures of at most 4 @service edges on 3 services x 4 renderings (one reference per argument list / packed into one list with a trailing literal / with a leading literal and look-alike parameter and tag names / dotted service names n, n.n, n.n.n)")
 	q.flush(t, 1)
 
 	// (a3) 2 services x 2 tags x 1..2 decorators over {@service, carries tag, !tagged, decorator-on-tag, decorator -> service/tag}
